@@ -1,5 +1,6 @@
 import TsProofs.Partition
 import TsProofs.Properties.C07
+import TsProofs.Glob   -- fnmatch model: which paths a replication glob selects
 import TsProofs.Properties.C01World   -- whole-job theorems (C06_world_*, C07_world_*) audited with this property too
 /-!
 # C06 — Replicated objects are written once, by one rank, with balanced load
